@@ -26,6 +26,18 @@ from pathlib import Path
 from src.core.types import Violation
 
 
+def _format_number(value: int | float) -> str:
+    """Render a literal's value for a message.
+
+    CPython refuses to convert an int beyond its digit limit (4300 by default) to decimal
+    text; such a literal can only have been written in hex, octal or binary, so show it in hex.
+    """
+    try:
+        return str(value)
+    except ValueError:
+        return hex(value) if isinstance(value, int) else repr(value)
+
+
 class ViolationBuilder:
     """Builds violations for magic number detections."""
 
@@ -55,9 +67,10 @@ class ViolationBuilder:
         Returns:
             Violation object with details about the magic number
         """
-        message = f"Magic number {value} should be a named constant"
+        number = _format_number(value)
+        message = f"Magic number {number} should be a named constant"
 
-        suggestion = f"Extract {value} to a named constant (e.g., CONSTANT_NAME = {value})"
+        suggestion = f"Extract {number} to a named constant (e.g., CONSTANT_NAME = {number})"
 
         return Violation(
             rule_id=self.rule_id,
@@ -84,10 +97,11 @@ class ViolationBuilder:
         Returns:
             Violation object with details about the magic number
         """
-        message = f"Magic number {value} should be a named constant"
+        number = _format_number(value)
+        message = f"Magic number {number} should be a named constant"
 
         suggestion = (
-            f"Extract {value} to a named constant (e.g., const CONSTANT_NAME: i32 = {value})"
+            f"Extract {number} to a named constant (e.g., const CONSTANT_NAME: i32 = {number})"
         )
 
         return Violation(
@@ -115,9 +129,10 @@ class ViolationBuilder:
         Returns:
             Violation object with details about the magic number
         """
-        message = f"Magic number {value} should be a named constant"
+        number = _format_number(value)
+        message = f"Magic number {number} should be a named constant"
 
-        suggestion = f"Extract {value} to a named constant (e.g., const CONSTANT_NAME = {value})"
+        suggestion = f"Extract {number} to a named constant (e.g., const CONSTANT_NAME = {number})"
 
         return Violation(
             rule_id=self.rule_id,
